@@ -4,13 +4,18 @@ EXTENDS Keys, KeysCases, Json
 CONSTANTS K2, S2, Z
 MCDefTrees == DefaultTrees
 MCLocTrees == Universe(K2, S2, Z)
+\* one fixed state in which the once-only families are printed
+FirstLocTree == CHOOSE t \in MCLocTrees : TRUE
 
 EmitCases == (work = {<<>>} /\ warns = <<>> /\ err = <<>> /\ ~silent) =>
                  PrintT(<<"CASE", ToJson(CaseOf(dtree, ltree))>>)
 
-EmitNullCases == (work = {<<>>} /\ ~silent /\ ltree = EmptyTree /\ dtree = CHOOSE d \in DefaultTrees : TRUE) =>
+EmitNullCases == (work = {<<>>} /\ ~silent /\ ltree = FirstLocTree /\ dtree = CHOOSE d \in DefaultTrees : TRUE) =>
                  /\ PrintT(<<"CASE", ToJson(NullDefaultCase(1))>>)
                  /\ PrintT(<<"CASE", ToJson(NullDefaultCase(2))>>)
+
+EmitCrossCases == (work = {<<>>} /\ ~silent /\ ltree = FirstLocTree /\ dtree = CHOOSE d \in DefaultTrees : TRUE) =>
+                 \A t1 \in CrossTrees, t2 \in CrossTrees : t1 = t2 \/ PrintT(<<"CASE", ToJson(CaseOf2(FullDefault, t1, t2))>>)
 
 MCSpec == Init /\ [][Next]_vars /\ WF_vars(Next)
 =============================================================================
